@@ -76,7 +76,7 @@ class Engine(EngineBase):
     # ------------------------------------------------------------------
     def generate(self, rng, tier):
         mode = "crash" if rng.random() < 0.6 else "reader"
-        target = rng.choice(["jobdoc", "jobdoc", "projdoc", "buffered", "cache", "cache"])
+        target = rng.choice(["jobdoc", "jobdoc", "projdoc", "buffered", "cache", "cache", "migdoc"])
         knobs = {
             "chunk": rng.choice(["none", "split2", "small"]),
             "listing": rng.choice(["shuffle", "sorted", "reverse"]),
@@ -84,6 +84,8 @@ class Engine(EngineBase):
             "mt": rng.random() < 0.6,
             "pool": rng.randrange(1, 4),
         }
+        if target == "migdoc":
+            mode = "crash"
         if target == "buffered":
             # the buffer is process-global state: two process-actors in one interpreter would
             # share it, which two real processes never do -> crash mode only
@@ -96,7 +98,11 @@ class Engine(EngineBase):
             if all(not same(sp, s) for s in sps):
                 sps.append(sp)
         sc["jobs"] = sps
-        if target in ("jobdoc", "projdoc", "buffered"):
+        if target == "migdoc":
+            sc["mig"] = {"name": rng.choice(["myproject", "my project v2", "a, b"]),
+                         "pdoc": rng.choice([None, {"k": "v"}, gen_doc(rng, "large")]),
+                         "version": rng.choice(["absent", 0, 1])}
+        elif target in ("jobdoc", "projdoc", "buffered"):
             nd = 1 if target != "buffered" else rng.randrange(1, njobs + 1)
             docs = []
             for i in range(nd):
@@ -180,6 +186,8 @@ class Engine(EngineBase):
         import signac
 
         pp = world.p("proj")
+        if sc["target"] == "migdoc":
+            return pp, [self._setup_legacy(sc, world, pp)]
         project = signac.init_project(pp)
         jobs = [project.open_job(sp).init() for sp in sc["jobs"]]
         targets = []
@@ -219,9 +227,46 @@ class Engine(EngineBase):
             targets.append(os.path.join(pp, CACHE_REL))
         return pp, targets
 
+    @quiet
+    def _setup_legacy(self, sc, world, pp):
+        """A schema-version-1 project with a non-default name: its migration writes the project document."""
+        import json as _json
+
+        from signac._vendor import configobj
+
+        m = sc["mig"]
+        os.makedirs(os.path.join(pp, "workspace"))
+        c = configobj.ConfigObj()
+        c.filename = os.path.join(pp, "signac.rc")
+        c["project"] = m["name"]
+        if m["version"] != "absent":
+            c["schema_version"] = str(m["version"])
+        c.write()
+        for sp in sc["jobs"]:
+            d = os.path.join(pp, "workspace", cid(sp))
+            os.makedirs(d)
+            with O.io_open(os.path.join(d, "signac_statepoint.json"), "wb") as f:
+                f.write(_json.dumps(sp).encode())
+        path = os.path.join(pp, PDOC_FILE)
+        if m["pdoc"] is not None:
+            with O.io_open(path, "wb") as f:
+                f.write(_json.dumps(m["pdoc"]).encode())
+        return path
+
     def _writer(self, sc, pp):
         """Returns op() that performs the write with fresh handles."""
         import signac
+
+        if sc["target"] == "migdoc":
+            import contextlib
+            import io
+
+            from signac.migration import apply_migrations
+
+            def migrate():
+                with contextlib.redirect_stderr(io.StringIO()):
+                    apply_migrations(pp)
+            return migrate
 
         project = signac.Project(pp)
         t = sc["target"]
@@ -285,7 +330,7 @@ class Engine(EngineBase):
         res["trace_sample"] = [f"{i} {k} {r}" + (f" -> {r2}" if r2 else "") + (f" {n}B" if n else "")
                                for i, k, r, r2, n in trace][:40]
         # model cross-check of the new content (documents only)
-        if sc["target"] != "cache":
+        if sc["target"] not in ("cache", "migdoc"):
             for d, (st, new) in zip(sc["docs"], news):
                 want = apply_doc_op(d["old"], d["op"])
                 if st == "absent" and want == {}:
@@ -332,7 +377,9 @@ class Engine(EngineBase):
                         P, f"C10:{sc['target']}:{kindname}-after-{fault['kind']}", detail,
                         f"C10:{sc['target']}:not-old-or-new-after-crash", {"only_fault": fault}))
                     return
-            # stray files
+            # stray files (the migration moves many other files; only its document write is C10's business)
+            if sc["target"] == "migdoc":
+                continue
             post = snapshot(world.root)
             bad = self._strays(world, pre, post, targets)
             if bad:
@@ -344,6 +391,8 @@ class Engine(EngineBase):
         res["outcome"] = f"{len(vs)} fault variants held"
 
     def _wkind(self, sc):
+        if sc["target"] == "migdoc":
+            return "migration:" + ("pdoc" if sc["mig"]["pdoc"] is not None else "nopdoc")
         if sc["target"] == "cache":
             c = sc["cache"]
             return f"cache:{'pre' if c['pre_update'] else 'nopre'}:+{len(c['add'])}-{c['remove']}"
